@@ -16,6 +16,10 @@
 //!       a value with all three observation kinds for every pair, Duration for every time pair, the round
 //!       trip inside a family, and u64 / f64 / Option / Distribution / Mean / Box / string / unit mismatch for a
 //!       subset of 55 pairs (None -> every unit, all time pairs, Kilobyte against all twenty).
+//!   val collect --behaviours b.ndjson --out o.ndjson
+//!       every line {id, prom, wrote, mags} is an ordered pair of units (all 26 x 26, VPUnitPairs.tla): elements
+//!       that promise `prom` and write `wrote` are collected by Distribution<V>::write, Mean::try_new /
+//!       try_extend / record_value and Distribution::try_to_mean.
 //!   val attrs   --out o.ndjson [--mags i,j]
 //!       statically declared #[metrics] structs with `unit = ...` attributes.
 //!
@@ -599,9 +603,43 @@ fn cfg_static(c: &dyn EntryConfig) -> &'static dyn EntryConfig {
     CFGS.iter().find(|c| c.0 == id).expect("unknown config")
 }
 
+/// a sample group taken out of a real `sample_group()` iterator together with the lower size-hint bound
+/// that iterator reported, so that the erased entry can present the same (possibly inexact) hint to the
+/// next real wrapper - collecting alone would turn every hint into an exact one
+#[derive(Default)]
+struct SgVec {
+    items: Vec<SampleGroupElement>,
+    lower: usize,
+}
+fn snapshot(it: impl Iterator<Item = SampleGroupElement>) -> SgVec {
+    let lower = it.size_hint().0;
+    let items: Vec<SampleGroupElement> = it.collect();
+    let lower = lower.min(items.len());
+    SgVec { items, lower }
+}
+struct HintedIter {
+    inner: std::vec::IntoIter<SampleGroupElement>,
+    slack: usize,
+}
+impl Iterator for HintedIter {
+    type Item = SampleGroupElement;
+    fn next(&mut self) -> Option<SampleGroupElement> {
+        self.inner.next()
+    }
+    fn size_hint(&self) -> (usize, Option<usize>) {
+        let n = self.inner.len();
+        (n.saturating_sub(self.slack), Some(n))
+    }
+}
+impl SgVec {
+    fn into_hinted_iter(self) -> HintedIter {
+        let slack = self.items.len() - self.lower;
+        HintedIter { inner: self.items.into_iter(), slack }
+    }
+}
 trait DynEntry {
     fn write_dyn(&self, w: &mut dyn DynEW);
-    fn sg_dyn(&self) -> Vec<SampleGroupElement>;
+    fn sg_dyn(&self) -> SgVec;
 }
 trait DynEW {
     fn timestamp(&mut self, t: SystemTime);
@@ -641,7 +679,7 @@ impl Entry for ErasedE {
         self.0.write_dyn(&mut ToDynEW(writer, PhantomData))
     }
     fn sample_group(&self) -> impl Iterator<Item = SampleGroupElement> {
-        self.0.sg_dyn().into_iter()
+        self.0.sg_dyn().into_hinted_iter()
     }
 }
 struct LayerE<E>(E);
@@ -649,8 +687,8 @@ impl<E: Entry> DynEntry for LayerE<E> {
     fn write_dyn(&self, w: &mut dyn DynEW) {
         self.0.write(&mut FromDynEW(w))
     }
-    fn sg_dyn(&self) -> Vec<SampleGroupElement> {
-        self.0.sample_group().collect()
+    fn sg_dyn(&self) -> SgVec {
+        snapshot(self.0.sample_group())
     }
 }
 fn layer_e<E: Entry + Send + Sync + 'static>(e: E) -> ErasedE {
@@ -663,8 +701,8 @@ impl DynEntry for BoxedL {
         let g = self.0.lock().unwrap();
         g.write(&mut FromDynEW(w))
     }
-    fn sg_dyn(&self) -> Vec<SampleGroupElement> {
-        self.0.lock().unwrap().sample_group().collect()
+    fn sg_dyn(&self) -> SgVec {
+        snapshot(self.0.lock().unwrap().sample_group())
     }
 }
 struct RefLE(ErasedE);
@@ -673,9 +711,9 @@ impl DynEntry for RefLE {
         let r: &ErasedE = &self.0;
         <&ErasedE as Entry>::write(&r, &mut FromDynEW(w))
     }
-    fn sg_dyn(&self) -> Vec<SampleGroupElement> {
+    fn sg_dyn(&self) -> SgVec {
         let r: &ErasedE = &self.0;
-        <&ErasedE as Entry>::sample_group(&r).collect()
+        snapshot(<&ErasedE as Entry>::sample_group(&r))
     }
 }
 struct CowBorrowLE(ErasedE);
@@ -684,9 +722,9 @@ impl DynEntry for CowBorrowLE {
         let c: Cow<'_, ErasedE> = Cow::Borrowed(&self.0);
         c.write(&mut FromDynEW(w))
     }
-    fn sg_dyn(&self) -> Vec<SampleGroupElement> {
+    fn sg_dyn(&self) -> SgVec {
         let c: Cow<'_, ErasedE> = Cow::Borrowed(&self.0);
-        c.sample_group().collect()
+        snapshot(c.sample_group())
     }
 }
 struct MergeRefL(ErasedE, ErasedE);
@@ -694,15 +732,15 @@ impl DynEntry for MergeRefL {
     fn write_dyn(&self, w: &mut dyn DynEW) {
         self.0.merge_by_ref(&self.1).write(&mut FromDynEW(w))
     }
-    fn sg_dyn(&self) -> Vec<SampleGroupElement> {
-        self.0.merge_by_ref(&self.1).sample_group().collect()
+    fn sg_dyn(&self) -> SgVec {
+        snapshot(self.0.merge_by_ref(&self.1).sample_group())
     }
 }
 
 /// the innermost stream of a stream-wrapper layer: hands the entry it is given on
 struct Capture<'c, 'w> {
     w: Option<&'c mut (dyn DynEW + 'w)>,
-    sg: &'c mut Option<Vec<SampleGroupElement>>,
+    sg: &'c mut Option<SgVec>,
     entries: &'c mut usize,
 }
 impl EntryIoStream for Capture<'_, '_> {
@@ -711,7 +749,7 @@ impl EntryIoStream for Capture<'_, '_> {
         if let Some(w) = self.w.as_mut() {
             entry.write(&mut FromDynEW(&mut **w));
         }
-        *self.sg = Some(entry.sample_group().collect());
+        *self.sg = Some(snapshot(entry.sample_group()));
         Ok(())
     }
     fn flush(&mut self) -> std::io::Result<()> {
@@ -738,7 +776,7 @@ enum StreamKind {
     GlobalDimsFmt(Vec<(String, String)>, HashSet<CowStr>),
 }
 impl StreamL {
-    fn run(&self, w: Option<&mut dyn DynEW>) -> Vec<SampleGroupElement> {
+    fn run(&self, w: Option<&mut dyn DynEW>) -> SgVec {
         let mut sg = None;
         let mut n = 0usize;
         let w = match w {
@@ -782,7 +820,7 @@ impl DynEntry for StreamL {
     fn write_dyn(&self, w: &mut dyn DynEW) {
         self.run(Some(w));
     }
-    fn sg_dyn(&self) -> Vec<SampleGroupElement> {
+    fn sg_dyn(&self) -> SgVec {
         self.run(None)
     }
 }
@@ -859,7 +897,44 @@ impl Entry for GlobalsE {
         w.value("gm", &CountWithDim(MAG_U[self.0 % 6]));
     }
     fn sample_group(&self) -> impl Iterator<Item = SampleGroupElement> {
-        [("region".into(), "region_v".into())].into_iter()
+        // three elements out of an iterator whose size hint is inexact (lower bound 0)
+        ["region", "-", "az", "-", "cell"].into_iter().filter_map(|k| (k != "-").then(|| (k.into(), format!("{k}_v").into())))
+    }
+}
+
+/// small entry that differs only in its sample group: `n` elements, produced by an iterator with an
+/// exact size hint (`exact`) or by filter_map / flat_map (lower bound 0)
+struct SgEntry {
+    n: usize,
+    exact: bool,
+    mag: usize,
+}
+const SG_KEYS: [&str; 5] = ["k1", "k2", "k3", "k4", "k5"];
+impl Entry for SgEntry {
+    fn write<'a>(&'a self, w: &mut impl EntryWriter<'a>) {
+        w.timestamp(SystemTime::UNIX_EPOCH + T1);
+        w.value("u64", &MAG_U[self.mag % 6]);
+    }
+    fn sample_group(&self) -> impl Iterator<Item = SampleGroupElement> {
+        let n = self.n;
+        let pair = |k: &str| -> SampleGroupElement { (k.to_string().into(), format!("{k}_v").into()) };
+        let it: Box<dyn Iterator<Item = SampleGroupElement>> = if self.exact {
+            Box::new(SG_KEYS[..n].iter().map(move |k| pair(k)))
+        } else if n % 2 == 1 {
+            // "only include the key if ..." style
+            Box::new(SG_KEYS.iter().enumerate().filter_map(move |(i, k)| (i < n).then(|| pair(k))))
+        } else {
+            Box::new((0..n).flat_map(move |i| Some(pair(SG_KEYS[i]))))
+        };
+        it
+    }
+}
+fn sg_entry(base: &str, mag: usize) -> Option<SgEntry> {
+    let b = base.as_bytes();
+    if b.len() == 3 && b[0] == b'S' {
+        Some(SgEntry { n: (b[1] - b'0') as usize, exact: b[2] == b'x', mag })
+    } else {
+        Option::None
     }
 }
 
@@ -967,10 +1042,14 @@ fn cmd_entries(a: &HashMap<String, String>) {
                 let be = BaseE { mi: mi.clone() };
                 let echo = be.echo();
                 let g = layer_e(GlobalsE(mi.get(11).copied().unwrap_or(1)));
-                let mut e = match b["base"].as_str().unwrap() {
+                let base = b["base"].as_str().unwrap();
+                let mut e = match base {
                     "E" => layer_e(be),
                     "G" => g.clone(),
-                    _ => layer_e(metrique_writer::core::entry::EmptyEntry),
+                    _ => match sg_entry(base, mi.get(1).copied().unwrap_or(0)) {
+                        Some(se) => layer_e(se),
+                        Option::None => layer_e(metrique_writer::core::entry::EmptyEntry),
+                    },
                 };
                 for (pos, w) in b["stack"].as_array().unwrap().iter().enumerate() {
                     e = apply_entry_wrapper(w, pos, e, &g);
@@ -1142,6 +1221,99 @@ fn cmd_pairs(a: &HashMap<String, String>) {
 }
 
 // ---------------------------------------------------------------------------------------------
+// collectors: Distribution<V> / Mean<U> over elements that promise `P` and write a unit chosen at run time
+// ---------------------------------------------------------------------------------------------
+/// promises unit `P`; writes `unit` (whatever it is), or makes no call at all
+struct Writes<P>(Option<u64>, Unit, PhantomData<fn() -> P>);
+impl<P> Value for Writes<P> {
+    fn write(&self, writer: impl ValueWriter) {
+        if let Some(v) = self.0 {
+            writer.metric([Observation::Unsigned(v)], self.1, [], MetricFlags::empty())
+        }
+    }
+}
+impl<P: UnitTag> MetricValue for Writes<P> {
+    type Unit = P;
+}
+macro_rules! unit_row {
+    ($id:expr; $($a:ident)*) => { $( if $id == stringify!($a) { return Some(<unit::$a as UnitTag>::UNIT); } )* };
+}
+fn unit_by_id(id: &str) -> Option<Unit> {
+    all_units!(unit_row!(id;));
+    Option::None
+}
+fn result_calls<P: UnitTag>(r: Result<Mean<P>, ValidationError>) -> J {
+    match r {
+        Ok(m) => record_value(&m),
+        Err(e) => json!([{"kind":"error","msg":e.to_string()}]),
+    }
+}
+#[inline(never)]
+fn run_collect<P: UnitTag + 'static>(args: (Unit, usize)) -> Vec<J> {
+    let (wrote, i) = args;
+    let mut out = vec![];
+    let (m1, m2) = (MAG_U[i % 6].min(1 << 52), 0u64);
+    let mags = || vec![json!({"t":"U","v":m1}), json!({"t":"U","v":m2})];
+    let elems = || [Writes::<P>(Some(m1), wrote, PhantomData), Writes::<P>(Some(m2), wrote, PhantomData)];
+    let mut push = |name: &str, mags: Vec<J>, calls: Result<J, String>| {
+        out.push(match calls {
+            Ok(c) => json!({"shape": name, "mags": mags, "calls": c}),
+            Err(p) => json!({"shape": name, "mags": mags, "panic": p}),
+        })
+    };
+    // Distribution<V>::write
+    push("dist", mags(), util::catch(|| record_value(&Distribution::<Writes<P>>::from_iter(elems()))));
+    // Mean::try_new / try_extend, Distribution::try_to_mean, Mean::record_value
+    push("mean", mags(), util::catch(|| result_calls(Mean::<P>::try_new(&elems()))));
+    push("mean", mags(), util::catch(|| result_calls(Distribution::<Writes<P>>::from_iter(elems()).try_to_mean())));
+    push("mean", mags(), util::catch(|| {
+        let mut m = Mean::<P>::default();
+        let r = m.try_extend(&elems());
+        result_calls(r.map(|()| m))
+    }));
+    push("mean", mags(), util::catch(|| {
+        let mut m = Mean::<P>::default();
+        let e = elems();
+        let r = m.record_value(&e[0]).and_then(|()| m.record_value(&e[1]));
+        result_calls(r.map(|()| m))
+    }));
+    // a bare unitless number recorded into Mean<P>
+    push("mean_u64", vec![json!({"t":"U","v":m1})], util::catch(|| {
+        let mut m = Mean::<P>::default();
+        let r = m.record_value(&m1);
+        result_calls(r.map(|()| m))
+    }));
+    // an element that makes no call next to one that writes what it promises; a string element
+    push("dist_empty_elem", vec![json!({"t":"U","v":m1})], util::catch(|| {
+        record_value(&Distribution::<Writes<P>>::from_iter([Writes::<P>(Option::None, P::UNIT, PhantomData), Writes::<P>(Some(m1), P::UNIT, PhantomData)]))
+    }));
+    push("dist_string", vec![], util::catch(|| record_value(&Distribution::<StrAs<P>>::from_iter([StrAs::<P>(PhantomData)]))));
+    out
+}
+macro_rules! unit_fn_row {
+    ($f:ident, $id:expr, $args:expr; $($a:ident)*) => { $( if $id == stringify!($a) { return Some($f::<unit::$a>($args)); } )* };
+}
+fn run_collect_by_name(id: &str, args: (Unit, usize)) -> Option<Vec<J>> {
+    all_units!(unit_fn_row!(run_collect, id, args;));
+    Option::None
+}
+fn cmd_collect(a: &HashMap<String, String>) {
+    let behaviours = util::read_ndjson(util::arg_str(a, "behaviours", ""));
+    let mut out = std::io::BufWriter::new(std::fs::File::create(util::arg_str(a, "out", "")).unwrap());
+    for b in behaviours {
+        let (prom, wrote) = (b["prom"].as_str().unwrap(), b["wrote"].as_str().unwrap());
+        let wu = unit_by_id(wrote).unwrap_or_else(|| panic!("unknown unit {wrote}"));
+        let mut shapes = vec![];
+        for m in b["mags"].as_array().unwrap() {
+            shapes.extend(run_collect_by_name(prom, (wu, m.as_u64().unwrap() as usize)).unwrap_or_else(|| panic!("unknown unit {prom}")));
+        }
+        serde_json::to_writer(&mut out, &json!({"id": b["id"], "prom": prom, "wrote": wrote, "shapes": shapes})).unwrap();
+        out.write_all(b"\n").unwrap();
+    }
+    out.flush().unwrap();
+}
+
+// ---------------------------------------------------------------------------------------------
 // #[metrics(unit = ...)]
 // ---------------------------------------------------------------------------------------------
 mod attrs {
@@ -1235,8 +1407,9 @@ fn main() {
         "entries" => cmd_entries(&a),
         "pairs" => cmd_pairs(&a),
         "attrs" => cmd_attrs(&a),
+        "collect" => cmd_collect(&a),
         _ => {
-            eprintln!("usage: val values|entries|pairs|attrs ...");
+            eprintln!("usage: val values|entries|pairs|collect|attrs ...");
             std::process::exit(2);
         }
     }
